@@ -75,7 +75,19 @@ contract(T + 'DataLinkConnection.dequeue', 'C05',
                                      'result.nr == self.recv_ack and result.ns == old(self.send_queue)[0].ns and '
                                      'result.data == old(self.send_queue)[0].data)'),
                   ('post.order', 'implies(result is not None and result.name == "I", '
-                                 'len(self.send_queue) == old(len(self.send_queue)) - 1)')],
+                                 'len(self.send_queue) == old(len(self.send_queue)) - 1)'),
+                  # an RR/RNR carries N(R) = V(RA), advanced at most by the receptions the application has confirmed
+                  # (acknowledging V(R) would reopen the peer's window over a full receive queue)
+                  ('post.ack-nr', 'implies(result is not None and (result.name == "RR" or result.name == "RNR"), '
+                                  'result.nr == self.recv_ack and '
+                                  '(self.recv_ack == old(self.recv_ack) or '
+                                  'self.recv_ack == (old(self.recv_ack) + old(self.recv_confs)) % 16) and '
+                                  'len(self.send_queue) == old(len(self.send_queue)))'),
+                  # a PDU that does not fit now stays at the head of the queue (order on the wire = order queued)
+                  ('post.requeue', 'implies(result is None and old(len(self.send_queue)) > 0, '
+                                   'len(self.send_queue) == old(len(self.send_queue)) and '
+                                   'self.send_queue[0].ns == old(self.send_queue)[0].ns and '
+                                   'self.send_queue[0].data == old(self.send_queue)[0].data)')],
          raises={})
 contract(T + 'DataLinkConnection.send', 'C05', dict(self=dlc(), message=Bytes(), flags=1),
          name='C05/sentinel.window-off-by-one', requires=['dlc_inv(self)'], expect_fail=True,
